@@ -19,7 +19,7 @@ ASSUMPTIONS = ['power / image tolerances 4e-2 (>= 6x the worst interpolation res
                'scale factors are drawn so that n*s is not within 1e-9 of an integer unless it is exactly one']
 PLAN = {'quick': {'gen': 8}, 'thorough': {'gen': 16, 'tests': 1, 'docs': 1}}
 REQUIRED_BUCKETS = ['s<1', 's>1', 's=1', 's:integer', 'shape:odd', 'shape:even', 'shape:nonsquare', 'monolithic', 'segmented',
-                    'resample', 'resample:refused', 'scalar-attributes', 'mask-dtype', 'amp:signed', 's:decimal-near-integer-product', 'subclass:property-override', 'opd:exact-zeros', 'array-dtype']
+                    'resample', 'resample:refused', 'scalar-attributes', 'mask-dtype', 'amp:signed', 's:decimal-near-integer-product', 'subclass:property-override', 'opd:exact-zeros', 'array-dtype', 'pair:same-output-size']
 REQUIRED_ANCHORS = ['probe:Plane.rescale', 'anchor:Plane.resample', 'anchor:util.rescale', 'anchor:_plane_slice']
 REQUIRED_ORACLES = ['pixelscale/s', 'shape=ceil(n*s)', 'mask:binary+segments', 'original-untouched', 'identity', 'power',
                     'image', 'extent', 'resample=rescale', 'resample:refused']
@@ -91,6 +91,23 @@ def rescale_oracle(ctx, args, kwargs, result, exc, pre):
             b0 = (a != 0)
             per = float(np.count_nonzero(np.diff(b0.astype(int), axis=0)) + np.count_nonzero(np.diff(b0.astype(int), axis=1))
                         + b0[0].sum() + b0[-1].sum() + b0[:, 0].sum() + b0[:, -1].sum()) + 4     # incl. the array border
+            # ... about the origin samples floor(n/2): a segment that lies inside the array keeps its place (each input sample lands
+            # on the output samples nearest to s times its position, so the centroid moves by at most half an output sample for
+            # whole factors; fractional factors give the samples unequal weights, which adds a little)
+            touches = bool(b0[0].any() or b0[-1].any() or b0[:, 0].any() or b0[:, -1].any())
+            if not touches and area0 >= 12 and area1 > 0:
+                ii0, jj0 = np.nonzero(b0)
+                ii1, jj1 = np.nonzero(b)
+                c0 = (ii0.mean() - a.shape[0] // 2, jj0.mean() - a.shape[1] // 2)
+                c1 = (ii1.mean() - b.shape[0] // 2, jj1.mean() - b.shape[1] // 2)
+                dev = max(abs(c1[0] - s * c0[0]), abs(c1[1] - s * c0[1]))
+                lim = 0.5 + 1e-9 if s == round(s) else 0.5 + 0.5 * max(s, 1.0) / np.sqrt(area0) * 4
+                cur = ctx.notes.get('mask_centroid_dev', [0.0, 0.0])
+                if dev / lim > cur[0]:
+                    ctx.notes['mask_centroid_dev'] = [float(dev / lim), float(dev), float(s)]
+                ctx.check(dev <= lim, 'mask:binary+segments', 'rescale|mask|position',
+                          'a segment of the rescaled mask is displaced from where the aperture it belongs to was (about the origin samples)',
+                          dict(wit, seg=k, deviation=float(dev), limit=float(lim)))
             ctx.check(abs(area1 - s * s * area0) <= 2 * per * max(s, 1.0) * max(s, 1.0) + 4, 'mask:binary+segments', 'rescale|mask|area',
                       'segment area did not scale with s^2 (mask not resampled by nearest neighbour?)',
                       dict(wit, seg=k, area=[area0, area1]))
@@ -138,6 +155,16 @@ def workload(ctx, lentil):
             n = (int(rng.choice([40, 50, 60])), int(rng.choice([40, 60])))      # (large enough to stay resolved at s = 0.55)
             s = float(rng.choice([1.1, 0.55, 1.3, 1.85, 1.35, 0.7, 0.6, 1.2, 1.4, 1.7, 1.15, 2.3, 0.65, 1.9]))
             ctx.bucket('s:decimal-near-integer-product')
+        if i % 8 == 3:
+            # two planes in a row that are shrunk by the same factor onto the same output size from different input sizes (2m and
+            # 2m-1 at s = 0.5; 4k and 4k-1 at s = 0.75): each is resampled about its own origin sample
+            s_pair = float(rng.choice([0.5, 0.75]))
+            m_ = int(rng.integers(7, 12)) * 4
+            pair_sizes = [m_, m_ - 1] if (i // 8) % 2 == 0 else [m_ - 1, m_]
+            n, s = (pair_sizes[0], pair_sizes[0]), s_pair
+            ctx.bucket('pair:same-output-size')
+        elif i % 8 == 4 and i > 3:
+            n, s = (pair_sizes[1], pair_sizes[1]), s_pair
         p = int(rng.choice([2, 4]))
         w = float(rng.uniform(0.12, 0.2))
         # "to interpolation accuracy" presupposes an aperture that is still resolved after the rescale: a 1/e radius of at
@@ -187,12 +214,18 @@ def workload(ctx, lentil):
             P0 = float(np.sum(np.abs(wa.field) ** 2))
             P1 = float(np.sum(np.abs(wb.field) ** 2))
             du = wl * z / (dx * n[0]) / 2
-            a = lentil.propagate_dft(wa, du, shape=24, oversample=1).intensity
-            b = lentil.propagate_dft(wb, du, shape=24, oversample=1).intensity
+            fa_ = lentil.propagate_dft(wa, du, shape=24, oversample=1)
+            fb_ = lentil.propagate_dft(wb, du, shape=24, oversample=1)
+            a, b = fa_.intensity, fb_.intensity
+            af, bf = fa_.field, fb_.field
         ctx.close('power', np.array([P1]), np.array([P0]), TOL, 'rescale|power',
                   'transmitted power sum|amplitude|^2 is not preserved to interpolation accuracy', dict(desc, P=[P0, P1]), scale=P0)
         ctx.close('image', b, a, TOL, 'rescale|image', 'propagated image at a fixed output sampling is not preserved to interpolation accuracy',
                   desc, scale=float(a.max()))
+        # ... as a complex field: what sat on the optical axis still sits there (a plane resampled about another point than its
+        # origin sample shows up as a phase ramp across the image, which the intensity cannot see)
+        ctx.close('image', bf, af, TOL, 'rescale|image-field', 'the propagated complex field is not preserved to interpolation accuracy '
+                  '(the resampled plane is displaced from the optical axis)', desc, scale=float(np.abs(af).max()))
         # a subclass that keeps its surface in other units behind the public properties (getter + setter, the customisation the
         # documentation describes): rescaling goes through those properties, so it behaves like the stock plane with the same data
         if i % 4 == 2:
